@@ -2779,8 +2779,8 @@ impl HnswBackend {
         };
         let search_k = compute_search_k(k, live_docs, total_slots);
 
+        let index = self.index.read();
         let mut raw_results = {
-            let index = self.index.read();
             let distance = index.distance_metric();
             let normalized_query = normalize_query_if_needed(distance, query)?;
             index.knn_search_with_ef_cancel(
@@ -2793,7 +2793,12 @@ impl HnswBackend {
 
         // Backend results are already sorted by ascending distance.
         // Preserve order while filtering tombstones and remapping IDs.
+        // The internal slot numbers in `raw_results` are only meaningful for the index they came
+        // from: tombstone compaction (index.write + doc_store.write, in that order) renumbers the
+        // slots. Take the doc_store guard before the index guard is released, otherwise a
+        // compaction in between makes this loop label one document's distance with another id.
         let store = self.doc_store.read();
+        drop(index);
         let mut mapped = Vec::with_capacity(k.min(raw_results.len()));
         for r in raw_results.drain(..) {
             let internal_id = r.doc_id as usize;
@@ -2873,7 +2878,7 @@ impl HnswBackend {
         // Keep chunked parallel execution to preserve batched throughput advantages.
         let worker_count = rayon::current_num_threads().max(1);
         let batch_chunk_size = worker_count.saturating_mul(8).max(32);
-        let mut raw_results: Vec<Vec<SearchResult>> = Vec::with_capacity(queries.len());
+        let mut mapped: Vec<Vec<SearchResult>> = Vec::with_capacity(queries.len());
         for chunk in queries.chunks(batch_chunk_size) {
             let index = self.index.read();
             let chunk_results: Vec<Result<Vec<SearchResult>>> = chunk
@@ -2889,15 +2894,12 @@ impl HnswBackend {
                 .collect();
             let chunk_results: Vec<Vec<SearchResult>> =
                 chunk_results.into_iter().collect::<Result<_>>()?;
-            raw_results.extend(chunk_results);
-            drop(index);
-        }
 
-        // Map internal IDs to external IDs in a single doc_store read pass (no O(N) clone).
-        let store = self.doc_store.read();
-        let mapped = raw_results
-            .into_iter()
-            .map(|mut results| {
+            // Map internal IDs to external IDs before the index guard is released: tombstone
+            // compaction renumbers the internal slots (see knn_search_with_ef_cancel).
+            let store = self.doc_store.read();
+            drop(index);
+            for mut results in chunk_results {
                 // Results are already sorted by ascending distance from the index backend;
                 // preserve that order while filtering tombstones.
                 let mut out = Vec::with_capacity(k.min(results.len()));
@@ -2915,9 +2917,10 @@ impl HnswBackend {
                         break;
                     }
                 }
-                out
-            })
-            .collect();
+                mapped.push(out);
+            }
+        }
+
         Ok(mapped)
     }
 
